@@ -52,8 +52,13 @@ def explicit_max_loop(prog, b):
     ok_repl = False
     for bi in repl:
         for lit in c.must_literals(bi):
+            x = None
             if lit[0] == "cmp" and lit[1] == "ne" and df.canon(lit[3], b).startswith("Ordering::Greater"):
                 x = df.strip(lit[2])
+            elif lit[0] == "variant" and lit[3] == "Ordering" and lit[2] and "Greater" not in lit[2]:
+                # the same test as a variant literal: compare(..) in {Less, Equal}
+                x = df.strip(lit[1])
+            if x is not None:
                 if x[0] == "call" and x[2] == "compare" and "BestAnnounceMessage" in x[1] and len(x[3]) == 2 and \
                         df.canon(x[3][1], b) == "next(iter)":
                     ok_repl = True
